@@ -135,9 +135,12 @@ class SimulationControl:
         logger.info("Resetting simulation")
 
         # Clear heap
+        from happysimulator.core.event import reset_event_counter
+
         self._sim._event_heap = type(self._sim._event_heap)(
             trace_recorder=self._sim._trace,
         )
+        self._sim._event_heap._event_counter = reset_event_counter()
 
         # Reset clock
         self._sim._clock.update(self._sim._start_time)
